@@ -68,8 +68,13 @@ def _f10(prop, case, v):
     # iterators disturb each other.  Only this constructor, and only a value
     # mismatch in rows of the right shape (never an exception or a length
     # change).  randomtable had the same defect and was repaired.
+    # The defect needs *interleaved stepping*: the RNG is reseeded at an
+    # iterator's first step, so iterators consumed one after the other (and
+    # fresh passes) are unaffected; a divergence without interleaving is not
+    # this finding.
     return (prop == 'C01' and case.get('view') == 'x:dummytable'
-            and v.get('kind') in ('iterator-diverged', 'fresh-pass-differs')
+            and v.get('kind') == 'iterator-diverged'
+            and v.get('steps-interleaved-with-another-iterator') is True
             and v.get('shape_ok', False))
 
 
